@@ -422,4 +422,14 @@ set_option maxRecDepth 100000 in
 example : (trace Pair.init dgramOps2).getLast?.map (fun q => errOf q.2) = some none ∧
     (((run Pair.init dgramOps2).b).sock 0).recvq = [] := by decide +kernel
 
+
+/-- client side of a completed connect (by address or by name): the peer recorded in the
+socket is the source address of the CC, i.e. the address of the accepting socket - not the
+address the CONNECT was sent to (SAP 1 for connect-by-name) -/
+theorem connect_peer_is_cc_source (p : Pair) (x : Side) (id d ss : Nat) :
+    (connectFinish p x id (some (.cc d ss))).2 = .ok .unit ∧
+    (((connectFinish p x id (some (.cc d ss))).1.get x).sock id).peer = some ss ∧
+    (((connectFinish p x id (some (.cc d ss))).1.get x).sock id).st = .established := by
+  simp [connectFinish, get_set, setSock, upd]
+
 end NfcVerif.C17
